@@ -34,6 +34,7 @@ CONSTANTS Sigma,      \* set of one-character strings the inputs are drawn from
           Pieces,     \* alternatively: set of strings-as-character-sequences; inputs = concatenations of
           MaxPieces,  \*   at most MaxPieces pieces
           Given,      \* alternatively (when non-empty): an explicit set of input texts (character sequences)
+          Prefix,     \* a character sequence put in front of every enumerated input (e.g. "globally:")
           Keywords, Booleans, Constants,  \* sets of strings (predicate level)
           PropMode,     \* BOOLEAN: the text is a property (TRUE) or a predicate / expression (FALSE)
           PropKeywords  \* set of strings: the keywords of the property level
@@ -153,7 +154,8 @@ Class(w) == IF AtPropLevel THEN ClassProp(w) ELSE ClassPred(w)
 RECURSIVE Concats(_)
 Concats(k) == IF k = 0 THEN {<<>>} ELSE LET r == Concats(k - 1) IN r \cup {a \o p : a \in r, p \in Pieces}
 
-Inputs == IF Given # {} THEN Given ELSE IF Pieces = {} THEN UNION {[1..n -> Sigma] : n \in 0..MaxLen} ELSE Concats(MaxPieces)
+Inputs == IF Given # {} THEN Given
+          ELSE {Prefix \o t : t \in (IF Pieces = {} THEN UNION {[1..n -> Sigma] : n \in 0..MaxLen} ELSE Concats(MaxPieces))}
 
 Rest == SubSeq(text, pos, Len(text))
 
